@@ -212,8 +212,15 @@ func VBody(F *VFuncs, c Config, o *Outcome) (func(), error) {
 		return func() {
 			ins := mkIns()
 			outer := vsched.Make[VC]("outer", c.OCap)
+			seq := ins
+			if c.Slice != nil {
+				seq = make([]VC, len(c.Slice))
+				for p, j := range c.Slice {
+					seq[p] = ins[j]
+				}
+			}
 			vsched.Spawn("oprod", func() {
-				for _, ch := range ins {
+				for _, ch := range seq {
 					outer.Send(ch)
 				}
 				outer.Close()
